@@ -305,7 +305,7 @@ def run_opts(res, shard):
     """the same reading under the corner formatter option sets (line-break newlinechar): what the text says may not depend on the options"""
     from .. import optsweep as O
 
-    docs = [(l, t) for l, t in O.documents("quick") if l.startswith(("RICH ", "S1", "S4", "NUM", "EXPR"))]
+    docs = [(l, t) for l, t in O.documents("quick") if l.startswith(("RICH ", "S1", "S4", "NUM", "EXPR", "AMBIG"))]
     sets = [o for o in O.corner_sets() if "\n" in o["newlinechar"]]
     for label, text in docs[shard::16]:
         try:
